@@ -19,8 +19,10 @@ RULE = ('Frame/Series recipes (all layouts) x interface in {assign (iloc/loc/get
 ASSUMPTIONS = ['unlabelled array values are generated with ascending keys only (the column order of an unsorted key is documented as irrelevant in assignment)',
                'a Series value is generated only for one-dimensional selections']
 
-KINDS = ('bool', 'int64', 'float64', '<U3', 'object', 'M8[D]', 'int32')
-NEWVAL = {'int': 77, 'float': 2.25, 'str': 'zz', 'bool': True, 'none': None, 'nan': float('nan'), 'big': 2 ** 40}
+KINDS = ('bool', 'int64', 'float64', '<U3', 'object', 'M8[D]', 'int32', 'm8[D]')
+NEWVAL = {'int': 77, 'float': 2.25, 'str': 'zz', 'bool': True, 'none': None, 'nan': float('nan'), 'big': 2 ** 40,
+          # a duration and a date: each is of the other's "NaT kind" without being storable in its column
+          'td': np.timedelta64(3, 'D'), 'dt': np.datetime64('2021-03-04')}
 
 
 def _asc_key(draw, n):
